@@ -35,7 +35,9 @@ ASSUMPTIONS = ["finite differences with steps h and h/2 (h = 1e-4): |<grad,d> - 
 def _case(draw, tier):
     big = tier == "thorough"
     sem = draw(st.sampled_from(tie.SEMIRINGS))
-    kw = dict(max_vars=4 if big else 3, max_K=2 if not big else 3, with_const=True, kron_max_out=8)
+    kw = dict(max_vars=4 if big else 3, max_K=2 if not big else 3, with_const=True, kron_max_out=8,
+              # categorical probabilities also as a plain normalised tensor with EXACT zeros (one-hot rows)
+              cat_kinds=["softmax", "logsoftmax-exp", "simplex0"])
     if sem == "lse-sum":
         spec = draw(gen.sd_circuit(input_types=gen.NONNEG_INPUTS, nonneg=True, **kw))
     elif sem == "sum-product":
@@ -44,7 +46,8 @@ def _case(draw, tier):
         spec = draw(gen.sd_circuit(input_types=gen.ALL_INPUTS, cx=draw(st.booleans()), **kw))
     spec = gen.unlearn(draw, spec, p=8)  # some frozen tensors (folded together with learnable ones of equal shape)
     return {"spec": spec, "semiring": sem, "vseed": draw(st.integers(0, 2**20)),
-            "profile": draw(st.sampled_from(["normal", "normal", "ints", "tiny"] + (["tiny"] if sem == "lse-sum" else []))),
+            "profile": draw(st.sampled_from(["normal", "normal", "ints", "tiny"] + (["tiny"] if sem == "lse-sum" else [])
+                                            + (["zeros"] if sem != "sum-product" else []))),
             "xseed": draw(st.integers(0, 2**20)),
             "B": draw(st.sampled_from([1, 2, 3])), "wseed": draw(st.integers(0, 2**20)),
             "functional": draw(st.sampled_from(["lin", "lin", "log"]))}
@@ -96,13 +99,20 @@ def run_case(case):
         return {"nontrivial": False, "classes": ["degenerate-reference"]}
     # exactly-zero hidden units: in a log-space semiring their logarithm is -inf and the (safe) logarithm
     # returns zero gradients through them by design, so derivative values are only compared away from them
-    hidden_zero = False
+    hidden_zero = zero_input = False
+    from cirkit.symbolic.layers import CategoricalLayer, InputLayer
+
+    lo, lm = {}, {}
+    with np.errstate(all="ignore"):
+        ref.evaluate(sc, vals, X, layer_out=lo)
+        ref.evaluate(sc, vals, X, mag=True, layer_out=lm)
     if sem != "sum-product":
-        lo, lm = {}, {}
-        with np.errstate(all="ignore"):
-            ref.evaluate(sc, vals, X, layer_out=lo)
-            ref.evaluate(sc, vals, X, mag=True, layer_out=lm)
         hidden_zero = any(np.any(np.abs(lo[l]) <= 1e-9 * np.abs(lm[l])) for l in lo)
+        zero_input = any(isinstance(l, InputLayer) and np.any(lo[l] == 0) for l in lo)
+    else:
+        # a categorical layer evaluates log p(x) in every semiring: a probability that is exactly zero is a hidden
+        # -inf there too (the safe logarithm returns a zero gradient through it)
+        hidden_zero = zero_input = any(isinstance(l, CategoricalLayer) and np.any(lo[l] == 0) for l in lo)
     kind = case["functional"]
     nonzero = np.all(np.abs(r) > 1e-6 * M)
     if not nonzero and sem != "sum-product":
@@ -279,6 +289,8 @@ def run_case(case):
         classes.append("reference-has-zeros")
     if hidden_zero:
         classes.append("hidden-zero-in-log-space(values-not-compared)")
+    if zero_input:
+        classes.append("input-layer-exactly-zero(log-space-semiring-or-categorical)")
     if fd_skipped:
         classes.append("log-functional:step-outside-linear-regime(tensor-skipped)")
     nt = (checked > 0 or hidden_zero) and (folded or rew or sem != "sum-product")
